@@ -66,17 +66,19 @@ func t2STUN() (string, func(), error) {
 
 // what one client does
 const (
-	cEcho          = iota // opens the channel, sends 200 kB, reads them back from the echoing relay, closes
-	cCloseAtOpen          // closes its peer connection as soon as the data channel is open
-	cNeverAnswer          // never applies the proxy's answer: the data channel never opens (20 s timeout at the proxy)
-	cStallDownload        // the relay pushes 6 MB; the client stops consuming after the first message, waits 3 s, closes
-	cRelayDown            // the relay URL the broker hands out is unreachable
-	cBadOffer             // the broker hands out an offer that does not deserialise
-	cRelayStalls          // the relay accepts the TCP connection and never answers the WebSocket handshake
+	cEcho             = iota // opens the channel, sends 200 kB, reads them back from the echoing relay, closes
+	cCloseAtOpen             // closes its peer connection as soon as the data channel is open
+	cNeverAnswer             // never applies the proxy's answer: the data channel never opens (20 s timeout at the proxy)
+	cStallDownload           // the relay pushes 6 MB; the client stops consuming after the first message, waits 3 s, closes
+	cRelayDown               // the relay URL the broker hands out is unreachable
+	cBadOffer                // the broker hands out an offer that does not deserialise
+	cRelayStalls             // the relay accepts the TCP connection and never answers the WebSocket handshake
+	cBrokerErrorPages        // the broker (a gateway in front of it) answers the next three polls with a 502 page, then serves an echo client
+	cAnswerErrorPage         // the broker answers the proxy's /answer request with a 503 page: the session comes to nothing
 	nClientModes
 )
 
-var cModeName = []string{"echo-then-close", "close-at-open", "never-applies-answer", "stalls-during-download-then-closes", "relay-unreachable", "undecodable-offer", "relay-accepts-and-never-answers"}
+var cModeName = []string{"echo-then-close", "close-at-open", "never-applies-answer", "stalls-during-download-then-closes", "relay-unreachable", "undecodable-offer", "relay-accepts-and-never-answers", "three-502-pages-then-echo", "answer-request-gets-a-503-page"}
 
 type t2Poll struct {
 	n       int
@@ -93,6 +95,9 @@ type t2World struct {
 	sidOffer map[string]string      // session id of the poll that was handed an offer -> that offer
 	pollCh   chan struct{}
 	download bool
+	// broker faults
+	errorPolls   int             // polls still to be answered with a 502 page
+	answerErrors map[string]bool // offers whose /answer request gets a 503 page
 }
 
 type t2Outcome struct {
@@ -109,7 +114,7 @@ func t2RunScenario(capacity uint, modes []int) *t2Outcome {
 // settle: wait for the proxy to poll with everything released (false: the environment probe only needs the session itself)
 func t2RunScenarioSettle(capacity uint, modes []int, settle bool) *t2Outcome {
 	out := &t2Outcome{}
-	w := &t2World{answers: map[string]chan string{}, sidOffer: map[string]string{}, pollCh: make(chan struct{}, 1024)}
+	w := &t2World{answers: map[string]chan string{}, sidOffer: map[string]string{}, pollCh: make(chan struct{}, 1024), answerErrors: map[string]bool{}}
 	// relay: echoes, or pushes a download
 	up := websocket.Upgrader{CheckOrigin: func(*http.Request) bool { return true }}
 	relay := httptest.NewServer(http.HandlerFunc(func(rw http.ResponseWriter, r *http.Request) {
@@ -192,6 +197,16 @@ func t2RunScenarioSettle(capacity uint, modes []int, settle bool) *t2Outcome {
 			n := int(atomic.AddInt32(&nPolls, 1))
 			w.mu.Lock()
 			w.polls = append(w.polls, t2Poll{n, clients, time.Now()})
+			if w.errorPolls > 0 {
+				w.errorPolls--
+				w.mu.Unlock()
+				select {
+				case w.pollCh <- struct{}{}:
+				default:
+				}
+				http.Error(rw, "<html><head><title>502 Bad Gateway</title></head><body><center><h1>502 Bad Gateway</h1></center>"+strings.Repeat("<!-- padding -->", 40)+"</body></html>", http.StatusBadGateway)
+				return
+			}
 			var resp []byte
 			if len(w.offers) > 0 {
 				w.sidOffer[sid] = w.offers[0]
@@ -214,6 +229,11 @@ func t2RunScenarioSettle(capacity uint, modes []int, settle bool) *t2Outcome {
 			}
 			// the answer goes to the client whose offer was handed to the poll with this session id
 			w.mu.Lock()
+			if w.answerErrors[w.sidOffer[sid]] {
+				w.mu.Unlock()
+				http.Error(rw, "<html><body><h1>503 Service Temporarily Unavailable</h1>"+strings.Repeat("<!-- padding -->", 40)+"</body></html>", http.StatusServiceUnavailable)
+				return
+			}
 			if ch := w.answers[w.sidOffer[sid]]; ch != nil {
 				select {
 				case ch <- answer:
@@ -266,6 +286,7 @@ func t2RunScenarioSettle(capacity uint, modes []int, settle bool) *t2Outcome {
 	// clients, one after the other when capacity is 1, together otherwise
 	type clientRes struct {
 		noWebRTC bool
+		stalled  bool // its offer was never taken by the proxy
 		sig, msg string
 	}
 	runClient := func(idx, mode int) clientRes {
@@ -337,6 +358,12 @@ func t2RunScenarioSettle(capacity uint, modes []int, settle bool) *t2Outcome {
 		}
 		w.mu.Lock()
 		w.answers[offerJSON] = ansCh
+		if mode == cBrokerErrorPages {
+			w.errorPolls = 3
+		}
+		if mode == cAnswerErrorPage {
+			w.answerErrors[offerJSON] = true
+		}
 		w.offers = append(w.offers, offerJSON)
 		w.relays = append(w.relays, ru)
 		w.mu.Unlock()
@@ -347,6 +374,22 @@ func t2RunScenarioSettle(capacity uint, modes []int, settle bool) *t2Outcome {
 		}()
 		if mode == cBadOffer {
 			return res // the proxy refuses it; nothing more for this client to do
+		}
+		if mode == cAnswerErrorPage {
+			// the proxy's answer never gets through; wait until the offer was taken, then leave
+			for t0 := time.Now(); time.Since(t0) < t2Wait; time.Sleep(100 * time.Millisecond) {
+				w.mu.Lock()
+				taken := true
+				for _, o := range w.offers {
+					taken = taken && o != offerJSON
+				}
+				w.mu.Unlock()
+				if taken {
+					break
+				}
+			}
+			time.Sleep(2 * time.Second)
+			return res
 		}
 		var answerJSON string
 		// the answer that belongs to this client carries a fingerprint/ufrag this client can apply; with two
@@ -368,7 +411,19 @@ func t2RunScenarioSettle(capacity uint, modes []int, settle bool) *t2Outcome {
 					applied = true
 				}
 			case <-deadline:
-				res.noWebRTC = true
+				// no answer: either the proxy never took the offer (it has stopped polling: a liveness
+				// failure of the proxy, believed after re-runs) or the environment is in the way
+				w.mu.Lock()
+				taken := true
+				for _, o := range w.offers {
+					taken = taken && o != offerJSON
+				}
+				w.mu.Unlock()
+				if taken {
+					res.noWebRTC = true
+				} else {
+					res.stalled = true
+				}
 				return res
 			}
 		}
@@ -396,7 +451,7 @@ func t2RunScenarioSettle(capacity uint, modes []int, settle bool) *t2Outcome {
 			close(resume)
 			<-closed
 			return res
-		case cEcho:
+		case cEcho, cBrokerErrorPages:
 			for off := 0; off < len(payload); off += 8192 {
 				if err := dc.Send(payload[off:min(off+8192, len(payload))]); err != nil {
 					res.sig, res.msg = "session:send-error", err.Error()
@@ -434,7 +489,7 @@ func t2RunScenarioSettle(capacity uint, modes []int, settle bool) *t2Outcome {
 	if capacity == 1 {
 		for i, m := range modes {
 			results[i] = runClient(i, m)
-			if results[i].noWebRTC {
+			if results[i].noWebRTC || results[i].stalled {
 				break
 			}
 			// the slot must come back before the next client can be served: with capacity 1 the proxy polls
@@ -462,7 +517,12 @@ func t2RunScenarioSettle(capacity uint, modes []int, settle bool) *t2Outcome {
 		}
 		wg.Wait()
 	}
-	for _, cr := range results {
+	for i, cr := range results {
+		if cr.stalled {
+			out.slow = true
+			out.msg = fmt.Sprintf("the offer of client %d (%s) was not taken within %v: the proxy has stopped polling", i, cModeName[modes[i]], t2Wait)
+			return out
+		}
 		if cr.noWebRTC {
 			out.noWebRTC = true
 			return out
@@ -518,7 +578,7 @@ func TestVerifEnumC16T2(t *testing.T) {
 	for m := 0; m < nClientModes; m++ {
 		scen = append(scen, scenario{1, []int{m}})
 	}
-	scen = append(scen, scenario{1, []int{cCloseAtOpen, cEcho}}, scenario{1, []int{cRelayDown, cBadOffer, cEcho}}, scenario{2, []int{cEcho, cEcho}}, scenario{2, []int{cStallDownload, cEcho}}, scenario{3, []int{cEcho, cCloseAtOpen, cRelayDown}}, scenario{1, []int{cRelayStalls, cEcho}})
+	scen = append(scen, scenario{1, []int{cCloseAtOpen, cEcho}}, scenario{1, []int{cRelayDown, cBadOffer, cEcho}}, scenario{2, []int{cEcho, cEcho}}, scenario{2, []int{cStallDownload, cEcho}}, scenario{3, []int{cEcho, cCloseAtOpen, cRelayDown}}, scenario{1, []int{cRelayStalls, cEcho}}, scenario{1, []int{cBrokerErrorPages, cAnswerErrorPage, cEcho}}, scenario{2, []int{cAnswerErrorPage, cBrokerErrorPages}})
 	if r.Thorough() {
 		for a := 0; a < nClientModes; a++ {
 			for b := 0; b < nClientModes; b++ {
